@@ -218,7 +218,15 @@ def kernel_violations(sess, outcome, extra_ok=()):
     found = [dict(v) for v in sess.violations if v['mechanism'].startswith('kernel-')]
     kind, exc = outcome
     if kind == 'exc':
-        found.append({'mechanism': 'run-failed:%s' % type(exc).__name__,
+        def leaf_types(err):
+            children = getattr(err, 'children', None)
+            if children:
+                for child in children:
+                    yield from leaf_types(child)
+            elif not isinstance(err, Strike):
+                yield type(err).__name__
+        names = sorted(set(leaf_types(exc))) or [type(exc).__name__]
+        found.append({'mechanism': 'run-failed:%s' % '+'.join(names),
                       'msg': 'run() ended with %s: %s' % (type(exc).__name__, str(exc)[:300])})
     elif kind == 'abort':
         found.append({'mechanism': 'run-aborted', 'msg': 'budget exceeded: %s' % exc})
